@@ -78,8 +78,39 @@ class FnView:
         self.restrict = None
         self.keep_names = False
         self.policy_sites = []   # (bi, tag)
+        self._thread_const_switches()
         if policy_diverges:
             self._prune_policy()
+
+    def _thread_const_switches(self):
+        """`x = const true; goto J` where J is nothing but `switch(x)`: the outcome is known, go straight to the arm.
+        (`matches!(..)`, `a && b` and similar lower to a boolean temporary that is set to a constant on each path and
+        tested right after the join; without this every path through the join could take either arm.)"""
+        b = self.b
+        for bi in range(self.n):
+            if b.cleanup[bi]:
+                continue
+            t = b.term(bi)
+            if t.kind != "goto" or not t.targets:
+                continue
+            j = t.targets[0]
+            if b.cleanup[j] or b.stmts(j):
+                continue
+            tj = b.term(j)
+            if tj.kind != "switch" or tj.discr.place is None or not tj.discr.place.is_local():
+                continue
+            l = tj.discr.place.local
+            val = None
+            for st in b.stmts(bi):
+                if st.kind == "a" and st.place.is_local() and st.place.local == l:
+                    val = None
+                    if st.rv.op == "use" and st.rv.ops and st.rv.ops[0].const is not None and "v" in st.rv.ops[0].const:
+                        val = int(st.rv.ops[0].const["v"])
+            if val is None:
+                continue
+            tgt = next((tg for v, tg in tj.arms if v == val), tj.otherwise)
+            if tgt is not None and not b.cleanup[tgt]:
+                self.succ[bi] = [tgt]
 
     # ------------------------------------------------------------- definitions
     @property
